@@ -80,7 +80,7 @@ func build(repo string) (*built, error) {
 			data, _ := os.ReadFile(file)
 			os.WriteFile(dst, data, 0o644)
 		}
-		args = []string{"build", "-o", filepath.Join(tmp, "worker"), "-cover", "-coverpkg=github.com/creachadair/jrpc2,github.com/creachadair/jrpc2/channel,github.com/creachadair/jrpc2/handler,github.com/creachadair/jrpc2/server,github.com/creachadair/jrpc2/jhttp"}
+		args = []string{"build", "-o", filepath.Join(tmp, "worker"), "-cover", "-coverpkg=all"}
 		abs = tree
 	}
 	if abs != "/repo" {
